@@ -78,6 +78,10 @@ int main(int argc, char** argv)
                 gC.update_routes(elev);
                 const auto& filled = pC.update_routes(elev);
                 if (gC.elevation_snapshot("filled") != filled) { std::cout << "VIOLATED C16: elevation snapshot after the priority flood differs from the filled surface\n"; return 1; }
+                {   // the base levels change between updates: a later update must REPLACE the snapshot's set
+                    std::vector<std::size_t> bl2 = (upd % 2) ? std::vector<std::size_t>{ 0, n - 1 } : std::vector<std::size_t>{ nc + 2 };
+                    gD.set_base_levels(bl2); pD.set_base_levels(bl2);
+                }
                 gD.update_routes(elev); pD.update_routes(elev);
                 {
                     auto bs = gD.graph_snapshot("s").basins();
